@@ -452,7 +452,7 @@ pub fn exec(c: &Case) -> Outcome {
     if matches!(c.fault, Fault::WriteErr { .. }) {
         for _ in 0..40 {
             match conn.open_channel(None) {
-                Ok(ch) => std::mem::forget(ch),
+                Ok(ch) => crate::run::bury(ch),
                 Err(_) => break,
             }
         }
